@@ -26,10 +26,37 @@ from histogrammar.defs import (
     JsonFormatException,
 )
 from histogrammar.util import basestring, floatToJson, hasKeys, inheritdoc, numeq
+from histogrammar.primitives.count import Count
 
 
 class Collection:
     pass
+
+
+def _evaluatesQuantity(x):
+    """True if filling ``x`` from arrays evaluates some quantity (and so learns the number of rows)."""
+    if isinstance(x, Count):
+        return False
+    if isinstance(x, Collection):
+        return any(_evaluatesQuantity(c) for c in x.children)
+    return True
+
+
+def _numpyChildren(children, data, weights, shape):
+    """Fill the children of a collection from arrays.
+
+    With scalar weights the number of rows is only known once some primitive has evaluated its quantity, so as long
+    as it is unknown (``shape[0] is None``) children that evaluate no quantity (Counts, collections of Counts) are
+    filled after their siblings.
+    """
+    later = []
+    for x in children:
+        if shape[0] is None and not _evaluatesQuantity(x):
+            later.append(x)
+        else:
+            x._numpy(data, weights, shape)
+    for x in later:
+        x._numpy(data, weights, shape)
 
 
 class Label(Factory, Container, Collection):
@@ -213,8 +240,7 @@ class Label(Factory, Container, Collection):
             self._checkNPWeights(weights, shape)
             weights = self._makeNPWeights(weights, shape)
 
-        for x in self.values:
-            x._numpy(data, weights, shape)
+        _numpyChildren(self.values, data, weights, shape)
 
         # no possibility of exception from here on out (for rollback)
         if isinstance(weights, numpy.ndarray):
@@ -447,8 +473,7 @@ class UntypedLabel(Factory, Container, Collection):
             self._checkNPWeights(weights, shape)
             weights = self._makeNPWeights(weights, shape)
 
-        for x in self.values:
-            x._numpy(data, weights, shape)
+        _numpyChildren(self.values, data, weights, shape)
 
         # no possibility of exception from here on out (for rollback)
         if isinstance(weights, numpy.ndarray):
@@ -681,8 +706,7 @@ class Index(Factory, Container, Collection):
             self._checkNPWeights(weights, shape)
             weights = self._makeNPWeights(weights, shape)
 
-        for x in self.values:
-            x._numpy(data, weights, shape)
+        _numpyChildren(self.values, data, weights, shape)
 
         # no possibility of exception from here on out (for rollback)
         if isinstance(weights, numpy.ndarray):
@@ -923,8 +947,7 @@ class Branch(Factory, Container, Collection):
             self._checkNPWeights(weights, shape)
             weights = self._makeNPWeights(weights, shape)
 
-        for x in self.values:
-            x._numpy(data, weights, shape)
+        _numpyChildren(self.values, data, weights, shape)
 
         # no possibility of exception from here on out (for rollback)
         if isinstance(weights, numpy.ndarray):
